@@ -42,7 +42,10 @@ impl Cfg {
         let mut r = Rng::new(seed);
         let _ = thorough;
         let comp = if cfg!(feature = "full") && r.chance(1, 4) { if r.chance(1, 2) { Comp::Gz } else { Comp::Zst } } else { Comp::None };
-        let mut pattern_rel = (*r.pick(&["app.{}.log", "arch/app.{}.log", "arch/{}/app.log"])).to_owned();
+        // (two long non-ASCII directory names whose byte lengths differ by one: whatever an error path does
+        // with the path text, some byte offset falls inside a character in one of them)
+        let mut pattern_rel = (*r.pick(&["app.{}.log", "arch/app.{}.log", "arch/{}/app.log", "arch/{}/app.log",
+            "архив-журналов-приложения-за-прошлые-периоды/app.{}.log", "xархив-журналов-приложения-за-прошлые-периоды/журнал.{}.log"])).to_owned();
         match comp {
             Comp::Gz => pattern_rel.push_str(".gz"),
             Comp::Zst => pattern_rel.push_str(".zst"),
